@@ -35,11 +35,10 @@ def check(ctx, replay=None):
         if cls in ("ok", "backend-error"):
             ok_runs += 1
         if cls == "panic":
-            m = re.search(r"panicked at ([^\s:]+):(\d+)", err)
-            site = m.group(1) if m else "?"
+            site, slug = e2e.panic_site(err)
             if site.startswith("core/src/ast/"):
                 continue            # the source is rejected while being parsed, before lowering: outside the property
-            key = f"panic:{b}:{site}:{m.group(2) if m else 0}"
+            key = f"panic:{b}:{site}:{slug}"
             panics.setdefault(key, (b, pos, t, err))
     # every accepted witness is its own class (so the enumeration is what the theorems say it is)
     seen = set()
@@ -65,10 +64,9 @@ def check(ctx, replay=None):
                 q = e2e.run_tool(b, path, os.path.join(d, "out"), config=CFG + extra)
                 big += 1
                 if e2e.classify_tool(q) == "panic":
-                    m = re.search(r"panicked at ([^\s:]+):(\d+)", q.stderr)
-                    site = m.group(1) if m else "?"
+                    site, slug = e2e.panic_site(q.stderr)
                     if not site.startswith("core/src/ast/"):
-                        ctx.violation(f"panic:{b}:{site}:{m.group(2) if m else 0}", {"backend": b, "config": extra, "what": "panic on a generated module that passed lowering",
+                        ctx.violation(f"panic:{b}:{site}:{slug}", {"backend": b, "config": extra, "what": "panic on a generated module that passed lowering",
                                                                  "stderr": q.stderr[-600:], "lib_rs": src[:3000]}, True)
     fails = []
     return batch_evidence(
